@@ -83,7 +83,7 @@ def obligations(tier):
             # first token of an arbitrary input: Kind/String/Clone/Bool (+Int/Uint when the alphabet keeps numbers to plain digits)
             L.append(ob("total/token/first/n=%d/alpha=%s/utf8=%d" % (n, "all" if full else "sigma24", u), P, "VerifC20TokenTotal", ["?" * n, 0 if full else 1, 0, 0, u], covers=TC))
     for t in ['[?', '[??', '{"?":?', '[1,?', '["a",?'] + ([] if q else ['{"?":??', '[[],??', '[???']):
-        L.append(ob("total/token/later/%s/struct-alphabet/int,uint" % t, P, "VerifC20TokenTotal", [t, 3, (2 if t.startswith('{') or ',' in t else 1), 1, False], covers=TC))
+        L.append(ob("total/token/later/%s/struct-alphabet/int,uint" % t, P, "VerifC20TokenTotal", [t, 3, (2 if t.startswith('{') or ',' in t else 1), 1, False], covers=(["token"] if t == '[[],??' else TC)))
     for t in ['"?a?"', '"I?finit?"', '"-Infinit?"', '"??"', 'tru?', 'nul?', '?'] + ([] if q else ['"?aN"', '"Na?"', '"?Infinity"', '"-?nfinity"', 'fals?', '??']):
         L.append(ob("total/token/float/%s" % t, P, "VerifC20TokenTotal", [t, 0, 0, 2, False], covers=["token"]))
     for t in ['0', '-0', '1.5', '-1e3', '123456789012345678901', '-9223372036854775808', '9007199254740993', '18446744073709551615', '0.1E-2']:
